@@ -299,7 +299,11 @@ impl StructureScanConfig {
         let file_name = path.file_name().unwrap_or_default();
         let file_name_str = file_name.to_string_lossy();
 
-        if self.scanner_exclude.is_match(file_name) || self.scanner_exclude.is_match(path) {
+        if self.scanner_exclude.is_match(file_name)
+            || self
+                .scanner_exclude
+                .is_match(crate::output::path::normalize_for_matching(path))
+        {
             return true;
         }
 
@@ -318,7 +322,10 @@ impl StructureScanConfig {
     /// Check if a path should be excluded from counting (but still traversed).
     pub(crate) fn is_count_excluded(&self, path: &Path) -> bool {
         let file_name = path.file_name().unwrap_or_default();
-        self.count_exclude.is_match(file_name) || self.count_exclude.is_match(path)
+        self.count_exclude.is_match(file_name)
+            || self
+                .count_exclude
+                .is_match(crate::output::path::normalize_for_matching(path))
     }
 
     /// Find the first allowlist rule matching a directory.
